@@ -125,7 +125,7 @@ def proof_obligations(prop):
     return names, closed, axioms, out, True
 
 
-def run_pair(cases_text, tag, timeout=600, mem_kb=8000000):
+def run_pair(cases_text, tag, timeout=600, mem_kb=8000000, sides=("impl", "model")):
     """Run the same command file through implrun and modelrun; return the two
     outputs split per '# <id>' marker."""
     os.makedirs(WORK, exist_ok=True)
@@ -133,6 +133,9 @@ def run_pair(cases_text, tag, timeout=600, mem_kb=8000000):
     open(cf, "w").write(cases_text)
     res = {}
     for name, exe in (("impl", IMPLRUN), ("model", MODELRUN)):
+        if name not in sides:
+            res[name] = (0, "", "")
+            continue
         cmd = "ulimit -v %d; ulimit -s unlimited 2>/dev/null; exec %s < %s" % (mem_kb, exe, cf)
         try:
             p = subprocess.run(["bash", "-c", cmd], stdout=subprocess.PIPE, stderr=subprocess.PIPE, timeout=timeout)
